@@ -12,7 +12,7 @@
    says: a commit of thread t, serving request q, took effect on key k; the index record became
    (rev, flag), version rev got value v; pred is the index record it replaced. *)
 From KB Require Import Model.RevSys Model.KeySys Model.C01Cases.
-From KB Require Import Proofs.RevSys Proofs.KeySys Proofs.KeySysLog Proofs.KeySysChain Proofs.KeySysFail Proofs.KeySysJust Proofs.KeySysProps Proofs.SchedCases Proofs.SchedLink Proofs.KeySysSucc Proofs.ProxySound.
+From KB Require Import Proofs.RevSys Proofs.KeySys Proofs.KeySysLog Proofs.KeySysChain Proofs.KeySysFail Proofs.KeySysJust Proofs.KeySysProps Proofs.SchedCases Proofs.SchedLink Proofs.KeySysSucc Proofs.ProxySound Proofs.CompactSound.
 Local Open Scope N_scope.
 
 (* C01_chain. For every key:
@@ -38,6 +38,14 @@ Theorem C01_no_double_success : forall cidx0 d0 store s, reach cidx0 d0 store s 
     False.
 Proof. exact k_no_double_success. Qed.
 Print Assumptions C01_no_double_success.
+
+(* the same over "no index record" (never-existed or deleted-and-compacted key): a commit that found no index record
+   is the first commit on its key in the log *)
+Theorem C01_no_double_success_none : forall cidx0 d0 store s, reach cidx0 d0 store s ->
+  forall l2 l1 l0 k t1 q1 a1 r1 f1 v1 p1 t2 q2 a2 r2 f2 v2,
+    log s = l2 ++ EApplied t2 q2 k a2 r2 f2 v2 None :: l1 ++ EApplied t1 q1 k a1 r1 f1 v1 p1 :: l0 -> False.
+Proof. exact k_no_double_success_none. Qed.
+Print Assumptions C01_no_double_success_none.
 
 (* a request answered with Succeeded = false or with an error applied no commit (so, by ch_image, left every key unchanged) *)
 Theorem C01_failure_no_effect : forall cidx0 d0 store s, reach cidx0 d0 store s -> failures_clean (log s).
@@ -172,7 +180,32 @@ Theorem C01_applied_has_success : forall cidx0 s l, kinv s -> tinvS s -> tinvS (
 Proof. exact tinvS_step. Qed.
 Print Assumptions C01_applied_has_success.
 
+(* case kind C1Compact (a compaction pass held before it deletes a tombstoned index record while a create commits):
+   the final-dump half of the oracle (compact_final_ok: the acknowledged create is the live index record and its
+   version record is there), for the case shape the driver emits (one create). Validity (well-formed initial key
+   state, writes on key 0, compaction revision <= initial revision) is part of compact_check. The probes half
+   (compact_probes_ok: follow-up Get / Update / Create) is judged by the oracle only, see gaps. *)
+Theorem C01_compact_oracle_final_sound_partial : forall c v rev,
+  cc_writes c = [(RqCreate 0 v, RespCreate rev true)] -> compact_check c = true -> compact_final_ok c = true.
+Proof. exact compact_final_sound. Qed.
+Print Assumptions C01_compact_oracle_final_sound_partial.
+
+(* … and the whole oracle under the hypothesis that the follow-up probes agree *)
+Theorem C01_compact_oracle_sound_given_probes : forall c v rev,
+  cc_writes c = [(RqCreate 0 v, RespCreate rev true)] -> compact_check c = true -> compact_probes_ok c = true ->
+  compact_ok c = true.
+Proof. exact compact_sound_given_probes. Qed.
+Print Assumptions C01_compact_oracle_sound_given_probes.
+
 (* ----- non-vacuity ----- *)
+Example C01_compact_ex :
+  let c := {| cc_cidx0 := true; cc_d0 := 10; cc_R := 7;
+              cc_init := {| k_idx := Some (7, true); k_vers := [(7, tombstone); (6, [3])] |};
+              cc_writes := [(RqCreate 0 [8], RespCreate 11 true)];
+              cc_final := {| k_idx := Some (11, false); k_vers := [(11, [8])] |};
+              cc_get := Some ([8], 11); cc_update_ok := true; cc_create_refused := true |} in
+  compact_check c = true /\ compact_final_ok c = true /\ compact_probes_ok c = true /\ compact_ok c = true.
+Proof. vm_compute. repeat split; reflexivity. Qed.
 Example C01_proxy_ex :
   let c := {| px_d0 := 10; px_init := {| k_idx := Some (5, false); k_vers := [(5, [1]); (3, [2])] |};
               px_req := RqUpdate 0 [9] 3; px_resp := RespUpdate 11 false (Some ([1], 5));
